@@ -250,6 +250,26 @@ def load (j : JResult) : Option Result :=
       obsName := fromJson j.obsName
       minMw := fromJson j.minMw }
 
+/-- the SECOND public loader: `csep.load_json(cls, fname)` = `FileSystem(url).load(cls)` (repositories.py:48, :127):
+    json.load, then `cls.from_dict(adict)` (models.py:102).  The caller names the class; the stored 'type' is not
+    consulted, so there is no KeyError.  The nine fields are read exactly as `load` reads them. -/
+def loadAs (c : String) (j : JResult) : Result :=
+  { cls := c
+    testDistribution := fromJson j.testDistribution
+    name := fromJson j.name
+    observedStatistic := fromJson j.observedStatistic
+    quantile := fromJson j.quantile
+    status := fromJson j.status
+    obsCatalogRepr := fromJson j.obsCatalogRepr
+    simName := fromJson j.simName
+    obsName := fromJson j.obsName
+    minMw := fromJson j.minMw }
+
+/-- the in-memory pair `cls.from_dict(result.to_dict())` (no file, no JSON): the class is the caller's, the fields are
+    handed over as they are, `test_distribution` as `td_list` made it.  `none` = to_dict raised TypeError. -/
+def fromDictToDict (r : Result) : Option Result :=
+  (tdList r.testDistribution).map fun td => { r with testDistribution := td }
+
 /-- the expected loaded result: same class, every field normalised -/
 def normResult (r : Result) (td : PyVal) : Result :=
   { cls := r.cls
